@@ -338,6 +338,14 @@ fn run_from_poly(case: u64, rng: &mut Rng, ev: &mut Ev) {
     for b in p.bias.iter_mut() {
         *b = b.abs() + 1.0;
     }
+    // degenerate rows: 0.x <= b holds everywhere (b >= 0) or nowhere (b < 0, e.g. Polytope::empty)
+    if rng.chance(0.2) {
+        let i = rng.below(m);
+        for v in p.mat[i].iter_mut() {
+            *v = 0.0;
+        }
+        p.bias[i] = *rng.pick(&[-1.0, -0.5, 1.0, 0.0, -0.0, -3.0]);
+    }
     let out = 1 + rng.below(2);
     let ft = gen::aff(rng, out, n, rg);
     let ff = if rng.chance(0.5) { Some(gen::aff(rng, out, n, rg)) } else { None };
@@ -403,9 +411,16 @@ fn run_slice(case: u64, rng: &mut Rng, ev: &mut Ev) {
     let kept: Vec<usize> = (0..n).filter(|i| refp[*i].is_nan()).collect();
     let desc: Value = json!({"tree": ts.to_json(), "reference_point": refp.iter().map(|v| if v.is_nan() { json!("NaN") } else { json!(v) }).collect::<Vec<_>>()});
     ev.evaluations += 1;
-    let res = lib(case, "from_slice+compose+remove_axes", || {
+    // 40 %: prune the sliced tree before the axes are removed (index holes, cached states)
+    let prune = rng.chance(0.4);
+    let mut unpruned: Option<crate::snap::Snap> = None;
+    let res = lib(case, "from_slice+compose(+infeasible_elimination)+remove_axes", || {
         let mut s = AffTree::<2>::from_slice(&arr1(&refp));
         s.compose::<false, false>(&t);
+        if prune {
+            unpruned = Some(snap(&s));
+            s.infeasible_elimination();
+        }
         let mask = ndarray::Array1::from(refp.iter().map(|v| v.is_nan()).collect::<Vec<bool>>());
         s.remove_axes(&mask).map(|_| s)
     });
@@ -426,6 +441,7 @@ fn run_slice(case: u64, rng: &mut Rng, ev: &mut Ev) {
     }
     let mut pts = gen::lattice(rng, kept.len(), 3, 1.0, 60);
     pts.extend(gen::lattice(rng, kept.len(), 4, 0.5, 40));
+    let mut thick_cache: std::collections::BTreeMap<usize, bool> = std::collections::BTreeMap::new();
     for xs in &pts {
         let mut full = refp.clone();
         for (j, i) in kept.iter().enumerate() {
@@ -439,6 +455,20 @@ fn run_slice(case: u64, rng: &mut Rng, ev: &mut Ev) {
                 return;
             }
         };
+        if let Some(su) = &unpruned {
+            // after pruning only inputs in a cell that is non-empty by a margin are asserted (S5)
+            let thick = match su.eval(&qv(&full)) {
+                TEv::Val(node, _) => *thick_cache.entry(node).or_insert_with(|| {
+                    su.path_sys(node).ok().and_then(|sys| crate::lpx::classify(&sys).ok()).map_or(false, |(b, _)| b == crate::lpx::Band::Thick)
+                }),
+                _ => false,
+            };
+            if !thick {
+                ev.skip("pruned slice: input in a thin or undefined cell (S5)");
+                continue;
+            }
+            ev.inc("inputs_checked_after_pruned_slice");
+        }
         if let Err(e) = check_eval(&s, xs, exp.as_deref(), 0.0, case) {
             ev.violation(case, "c17:slice", "", json!({"case": desc, "embedded_point": full, "problem": e}));
             return;
